@@ -93,3 +93,10 @@ def describe(cases, obs):
     return {'operator_histogram': muxprop.op_histogram(cases), 'boundaries_monitored': nb, 'boundary_events': ne,
             'nesting_depth': {str(d): sum(1 for c in cases if muxprop.depth(c['ast']) == d) for d in range(5)},
             'empty_lifetimes': sum(1 for c in cases for l in muxprop.lifetime_positions(c['trace']) if not l['items'])}
+
+
+CLAIM = {
+    'text': 'Theorems (Coq): for every pipeline P of the grammar and every well-formed input trace, the output trace is well-formed (create / items / exactly one completion per key, no event for a non-live key, no two live keys sharing a slot) and leaves the same keys live as the input; hence every key is completed when the stream completes. Covers every boundary of flat pipelines (prefixes are pipelines); the protocol of the traces fed to inner pipelines is discharged inside group/roll/seg_refines and not restated (partial there). Checked on the code with a recording tap after EVERY operator, at the head/tail of every inner pipeline and tee branch (protocol monitor = model-free oracle), random pipelines plus all nestings of the 6 composite kinds to depth 2 (thorough 3).',
+    'note': 'Trusted: Coq kernel+VM; hand-written model tied by correspondence; taps are harness-defined pass-through operators; errors_handled fragment.',
+    'technique': 'Coq proof (forward-simulation refinement of a slot-level model by per-key local machines, list-level induction) + vm_compute correspondence against /repo + model-free oracle',
+}
